@@ -9,8 +9,12 @@ Strict ==
   \/ e.ev = "Recv" /\ Recv(e.s, e.off, e.fin, e.res) /\ e.cr = cread
   \/ e.ev = "Consume" /\ Consume(e.s, e.n, e.cr)
   \/ e.ev = "Abandon" /\ Abandon(e.s, e.cr)
-  \/ e.ev = "StreamUpdate" /\ StreamUpdate(e.s, e.v, e.w)
-  \/ e.ev = "ConnUpdate" /\ ConnUpdate(e.v, e.w)
+  \* the window size is logged by the in-package harness; at the stream level it is what the advertised value implies
+  \/ e.ev = "StreamUpdate" /\ StreamUpdate(e.s, e.v, Get(e, "w", IF e.v = 0 THEN win[e.s] ELSE e.v - read[e.s]))
+  \/ e.ev = "ConnUpdate" /\ ConnUpdate(e.v, Get(e, "w", IF e.v = 0 THEN cwin ELSE e.v - cread))
+  \* receive-stream tier: the answer to a frame, and the end of the execution (streams reported complete are fully credited)
+  \/ e.ev = "Frame" /\ Accounted(e.s, e.off, e.fin, e.res) /\ e.cr = cread /\ UNCHANGED fvars
+  \/ e.ev = "End" /\ (\A s \in SeqToSet(e.done) : read[s] = hi[s]) /\ UNCHANGED fvars
   \/ e.ev = "Send" /\ Send(e.s, e.n, e.sw)
   \/ e.ev = "MaxStreamData" /\ MaxStreamData(e.s, e.v)
   \/ e.ev = "MaxData" /\ MaxData(e.v)
